@@ -15,13 +15,13 @@ RULE = ("termination cause in {local close, DPR from peer, abrupt peer disconnec
         "no lock is owned by a finished task, and start() on the same object reaches Open again; "
         "distinct = (cause, point, role, schedule hash)")
 
-CAUSES = ["local-close", "peer-dpr", "peer-disconnect", "peer-reset", "refused"]
+CAUSES = ["local-close", "peer-dpr", "peer-disconnect", "peer-reset", "refused", "socket-error", "connect-error"]
 POINTS = ["during-connect", "before-ce", "open-idle", "open-inbound-queued", "open-outbound-queued", "consumer-blocked", "closing",
           "submitter-active"]
 
 
 def applicable(cause, point, role):
-    if cause == "refused":
+    if cause in ("refused", "socket-error", "connect-error"):
         return point == "during-connect" and role == "client"
     if point == "during-connect":
         return False
@@ -58,6 +58,20 @@ def execute(acc, case):
                     s.parks.append({"task": "starter", "nth": case["park"], "release": lambda: sc.node._association is not None and sc.node._association.transport is None and sc.state() == "Closed", "timeout": 1.0})
                 sc.start_node()         # nobody listens on the peer address
                 s.run_until(lambda: sc.starter.done, 10.0, "start-returns")
+            elif cause in ("socket-error", "connect-error"):
+                # the set-up itself fails: no descriptor to be had (EMFILE), or connect_ex() raises (a peer host name that does not
+                # resolve, a port given as a string); the library reports it from start() - nothing may be left running
+                import errno
+                sc.client_start_in_task = True
+                sc.listen()
+                if cause == "socket-error":
+                    sc.net.socket_failures = [OSError(errno.EMFILE, "Too many open files")]
+                else:
+                    sc.net.connect_failures = [(__import__("socket").gaierror(-2, "Name or service not known"), TypeError("'str' object cannot be interpreted as an integer"))[case["seed"] % 2]]
+                sc.start_node()
+                s.run_until(lambda: sc.starter.done, 10.0, "start-returns")
+                sc.net.socket_failures = sc.net.connect_failures = None
+                acc.counters["setup_failures_injected"] += 1
             else:
                 if role == "client":
                     sc.listen()
@@ -157,6 +171,8 @@ def execute(acc, case):
                 acc.violation("task-died:%s:%s" % (d["task"].replace("client_", "").replace("server_", ""), d["type"]),
                               "%s died with %s (%s): %s" % (d["task"], d["exc"], tag, d["traceback"][-400:]), wit)
                 return
+            if cause in ("socket-error", "connect-error"):
+                wit["start_result"] = repr(sc.start_result)
             if cause == "refused" and isinstance(sc.start_result, BaseException) and not type(sc.start_result).__module__.startswith("bromelia"):
                 acc.violation("start-raises-%s-on-refused-connection" % type(sc.start_result).__name__,
                               "start() raised %r to the application while the connection was being refused" % (sc.start_result,), wit)
@@ -253,7 +269,7 @@ def main(tier, seed):
                 for i in range(reps):
                     cases.append({"seed": seed * 7919 + len(cases), "cause": cause, "point": point, "role": role,
                                   "strategy": "rr" if i == 0 else "rw", "p": rng.choice([0.02, 0.1, 0.3]),
-                                  "transport": "SCTP" if (i % 3 == 2 and cause != "refused") else "TCP",
+                                  "transport": "SCTP" if (i % 3 == 2 and cause not in ("refused", "socket-error", "connect-error")) else "TCP",
                                   "dpr_cause": (0, 1, 2)[i % 3] if cause == "peer-dpr" else 0})
     # application threads inside send_message()/get_message() while the connection ends: the windows are single source lines,
     # so these two points get many more line-level schedules than the rest
@@ -300,7 +316,7 @@ def main(tier, seed):
                           ["bounds are on the virtual clock (60 s) and the step counter; a wall-clock watchdog firing is inconclusive",
                            "refused connection follows Linux semantics observed on the real loopback: first send() raises ConnectionRefusedError, later ones BrokenPipeError",
                            "combinations the statement does not reach (close() before Open is a no-op, DPR outside Open) are left to C06's soft cells"],
-                          t0, extra_cov={"cells": cells}, require_counters=("executions", "restarts_ok", "consumer_returned", "real_loopback_ok", "twin_node_executions", "other_node_still_working"))
+                          t0, extra_cov={"cells": cells}, require_counters=("executions", "restarts_ok", "consumer_returned", "real_loopback_ok", "twin_node_executions", "other_node_still_working", "setup_failures_injected"))
 
 
 def replay(w):
